@@ -10,7 +10,9 @@ class CToken(Token):
         super().__init__(typ, val, loc)
         self.space = space
         self.first = first
-        # self.hideset = set()
+        # The names of the macros this token resulted from. Those macros
+        # are not expanded again when this token is scanned.
+        self.hideset = frozenset()
 
     def __repr__(self):
         return (
@@ -27,7 +29,9 @@ class CToken(Token):
             space = self.space
         if first is None:
             first = self.first
-        return CToken(self.typ, self.val, space, first, self.loc)
+        token = CToken(self.typ, self.val, space, first, self.loc)
+        token.hideset = self.hideset
+        return token
 
 
 class TokenType(enum.Enum):
